@@ -24,7 +24,8 @@ def r2_inplace(rep, facts):
         b = facts.body(d)
         segs = callee_segs(b)
         names = {s for s, _, _ in segs}
-        rem = sorted(s for s in names if 'remove' in s)
+        # storage-level removals (a helper that drops a placeholder before the lookup is judged by C08/R8, which evaluates where the entry ends up)
+        rem = sorted(s for s in names if s in ('remove', 'shift_remove', 'swap_remove', 'remove_entry', 'shift_remove_entry', 'swap_remove_entry', 'shift_remove_full', 'swap_remove_full', 'pop', 'drain', 'retain'))
         occupied = any((x.get('path') or '').endswith('Entry::Occupied') for x in walk(b['body']) if x.get('k') in ('p_tuplestruct', 'p_struct'))
         vacant = any((x.get('path') or '').endswith('Entry::Vacant') for x in walk(b['body']) if x.get('k') in ('p_tuplestruct', 'p_struct'))
         inplace = 'replace' in names and any(full == 'core::mem::replace' for _, full, _ in segs)
@@ -338,6 +339,8 @@ def rules(rep, facts):
     r2_inplace(rep, facts)
     r2d_bulk_insertion(rep, facts)
     r7_fmt_scope(rep, facts)
+    from .rules_containers import r8_map_summaries
+    r8_map_summaries(rep, facts, rid='C08/R8')
     r3_conversions(rep, facts)
     R6 = rep.rule('C08/R6', 'sorting touches what the API documents: each of the four sort functions sorts its own entries once, recurses only into dotted '
                   'children (sub-tables with their own header keep their order), through the same function and with the same comparison', floor=8)
